@@ -432,6 +432,28 @@ example : (resolveCompare true [97, 98] [97, 98, 47, 99]).1 = true := by decide
 example : readTree ⟨fun r => if r = 0 then [1, 2] else [], fun _ => true, fun r => r.toUInt32⟩ 3 0 = .ok 2 := by decide
 example : readTree ⟨fun _ => [0], fun _ => true, fun _ => 7⟩ 1 0 = .error .linkLoop := by decide
 
+/-! one instance per remaining theorem: the hypotheses hold and the conclusion is about real accesses -/
+example : (seek exCfg MetaSt.init 96 10).r = .ok () ∧ (seek exCfg MetaSt.init 96 10).acc = [⟨.metaData, 0, 100, 8192⟩] := by decide
+/-- a seek that fails after the old block was given up leaves the cleared reader, and the reader is used on -/
+example : (seek exCfg (seek exCfg MetaSt.init 96 10).st 300 100).st = MetaSt.cleared ∧
+    (mread true exCfg (seek exCfg (seek exCfg MetaSt.init 96 10).st 300 100).st 5).r = .error .oob := by decide
+example : (mread false exCfg (seek exCfg MetaSt.init 96 10).st 1000).r = .ok () := by decide
+example : (runOps true exCfg MetaSt.init [.seek 96 99, .read 3, .seek 5 0, .read 2, .seek 96 100, .read 1]).length = 9 := by decide
+example : getBlock 4096 .blockOut 0x1000800 4096 ⟨false, none⟩ = (.ok 2048, [⟨.blockOut, 0, 2048, 4096⟩]) := by decide
+example : getBlock 4096 .blockOut 0x800 4096 ⟨false, some 4096⟩ =
+    (.ok 4096, [⟨.drScratch, 0, 2048, 4096⟩, ⟨.blockOut, 0, 4096, 4096⟩]) := by decide
+example : (readTable 10000 (fun _ => true)).1 = .ok () ∧ (readTable 10000 (fun _ => true)).2.length = 4 := by decide
+example : (readTable 10000 (fun i => i == 0)).1 = .error .io := by decide
+example : readInodeFile 10000 4096 0xFFFFFFFF 0 = .ok [⟨.inodeExtra, 0, 12, 12⟩] := by decide
+example : readInodeFile 0xFFFFFFFFFFFFFFFF 1 0xFFFFFFFF 0 = .error .overflow := by decide
+example : readInodeSlink 5 = .ok [⟨.inodeExtra, 0, 5, 6⟩] := by decide
+example : readDirEnt 0xFFFF = [⟨.dirEntName, 0, 65536, 65537⟩] := by decide
+example : readdirStep ⟨100, 0⟩ 2 5 = some ⟨74, 2⟩ ∧ readdirStep ⟨20, 0⟩ 0 0 = none := by decide
+example : (unpackIdx true 40 (fun o => if o == 0 then 3 else 7) 5 0 1 []).1 = .ok () := by decide
+example : (unpackIdx true 40 (fun _ => 0xFFFFFFFE) 5 0 0 []).1 = .error .oob := by decide
+example : tarWalk true ⟨fun r => if r = 0 then [1] else [0], fun _ => true, fun _ => 1⟩ 4 0 = .error .linkLoop := by decide
+example : codecContract 8192 8192 = true ∧ codecContract 8192 8193 = false ∧ codecContract 0 (-3) = true := by decide
+
 /-- a tree, a directory listed twice (refused), and a chain one level deeper than the limit (refused) -/
 def exTree : DirGraph := ⟨fun r => if r = 0 then [1, 2] else if r = 1 then [3] else [], fun _ => true, fun r => r.toUInt32⟩
 def exShared : DirGraph := ⟨fun r => if r = 0 then [1, 1] else [], fun _ => true, fun r => r.toUInt32⟩
